@@ -44,6 +44,8 @@ type Check struct {
 	// Budget per tier (wall seconds). On expiry the run stops, exits 0 and
 	// reports exhaustive:false.
 	QuickBudget, ThoroughBudget int
+	// MaxStackMB is the goroutine stack limit of workers (0 = 256).
+	MaxStackMB int
 	// Workers overrides the number of worker processes (0 = NumCPU).
 	Workers int
 	// SingleProcess runs everything in the parent (used by engines that
@@ -425,7 +427,11 @@ func Main(chk *Check) {
 		*tier = "quick"
 	}
 	seed, _ := strconv.ParseInt(os.Getenv("VERIF_SEED"), 10, 64)
-	debug.SetMaxStack(256 << 20)
+	if chk.MaxStackMB > 0 {
+		debug.SetMaxStack(chk.MaxStackMB << 20)
+	} else {
+		debug.SetMaxStack(256 << 20)
+	}
 
 	if *replay != "" {
 		os.Exit(runReplay(chk, *replay, seed))
